@@ -434,7 +434,7 @@ class TMLE:
             self.g1W_total = self.g1W
             self.g0W_total = self.g0W
         H1W = self.df[self.exposure] / self.g1W_total
-        H0W = -(1 - self.df[self.exposure]) / self.g0W_total
+        H0W = -(1.0 - self.df[self.exposure]) / self.g0W_total  # 1.0: an unsigned-integer exposure must not wrap around
         HAW = H1W + H0W
 
         # Step 5) Estimating TMLE
